@@ -1,7 +1,7 @@
-(* C14 phase 2: agreement of the two reader models on modules (part E3) *)
+(* C14 phase 2: agreement of the two reader models on the documented subset (part E3) *)
 From stdpp Require Import strings gmap sets pretty.
 From CG Require Import Model.FastVerilog Proofs.FastVerilogProofs Gen.Gen_fastv.
-From CG Require Import Proofs.FvA0 Proofs.FvA1 Proofs.FvA2 Proofs.FvC1 Proofs.FvE1 Proofs.FvE2.
+From CG Require Import Proofs.FvA0 Proofs.FvA1 Proofs.FvA2 Proofs.FvE1 Proofs.FvE2.
 Open Scope string_scope.
 
 Definition pin_list (d : bbdef) : list (string * gtype) :=
